@@ -44,7 +44,7 @@ def main():
         shutil.copy(os.path.join(src, d), os.path.join(wt, target, d))
         placed.append(os.path.join(target, d))
     demo_pkgs = sorted({'./' + os.path.dirname(p) for p in placed})
-    run = re.search(r"-run\s+'?([^\s']+)'?", meta.get('demo_cmd', ''))
+    run = re.search(r"""-run\s+['"]?([^\s'"]+)['"]?""", meta.get('demo_cmd', ''))
     runflag = f"-run '{run.group(1)}'" if run else ''
     demo_cmd = f"go test -vet=off -count=1 -p 1 {runflag} {' '.join(demo_pkgs)}"
     log = {}
